@@ -170,3 +170,37 @@ func TestCrashAndSpin(t *testing.T) {
 		t.Fatalf("livelock not detected: %+v", r)
 	}
 }
+
+// buffered channels are FIFO whatever the schedule; unbuffered hand-over works both ways
+func TestChannelFIFO(t *testing.T) {
+	for _, capacity := range []int{0, 1, 2} {
+		capacity := capacity
+		var got []int
+		run := func(prefix []int) *vrt.Result {
+			got = nil
+			return vrt.Run(vrt.Options{}, prefix, func() {
+				ch := make(chan int, capacity)
+				vrt.Go(func() {
+					for i := 1; i <= 3; i++ {
+						vrt.Send(ch, i)
+					}
+					vrt.Close(ch)
+				})
+				for {
+					v, ok := vrt.Recv2(ch)
+					if !ok {
+						return
+					}
+					got = append(got, v)
+				}
+			})
+		}
+		st := explore.DFS(run, 3, explore.Limits{}, func(p []int, r *vrt.Result) bool {
+			if len(got) != 3 || got[0] != 1 || got[1] != 2 || got[2] != 3 || len(r.Blocked) > 0 {
+				t.Fatalf("cap %d: got %v blocked %v (choices %v)", capacity, got, r.Blocked, p)
+			}
+			return true
+		})
+		t.Logf("cap %d: %d executions", capacity, st.Executions)
+	}
+}
